@@ -218,7 +218,9 @@ impl<'a, R: 'a + Read> CompressionLayerReader<'a, R> {
                 Ok(brotli::Decompressor::new(
                     // Make the Decompressor work only on the compressed block's bytes, no more
                     inner.take(compressed_block_size as u64),
-                    compressed_block_size,
+                    // Internal buffer: the size announced by the (untrusted) footer is
+                    // only a hint, do not allocate more than a block
+                    std::cmp::min(compressed_block_size, UNCOMPRESSED_DATA_SIZE as usize),
                 ))
             }
             None => Err(Error::MissingMetadata),
@@ -323,9 +325,11 @@ impl<'a, R: 'a + InnerReaderTrait> LayerReader<'a, R> for CompressionLayerReader
                 let len = u64::from(inner.read_u32::<LittleEndian>()?);
 
                 // Read SizesInfo
-                inner.seek(SeekFrom::Start(pos - len))?;
+                let footer_start = pos.checked_sub(len).ok_or(Error::DeserializationError)?;
+                inner.seek(SeekFrom::Start(footer_start))?;
+                // The footer is `len` bytes long: nothing bigger can be legitimately asked for
                 self.sizes_info = match bincode::options()
-                    .with_limit(BINCODE_MAX_DESERIALIZE)
+                    .with_limit(std::cmp::min(len, BINCODE_MAX_DESERIALIZE))
                     .with_fixint_encoding()
                     .deserialize_from(inner.take(len))
                 {
@@ -433,6 +437,14 @@ impl<R: Read + Seek> Seek for CompressionLayerReader<'_, R> {
                         let rounded_pos = pos - inside_block;
 
                         // Move the underlayer at the start of the block
+                        if matches!(self.state, CompressionLayerReaderState::Empty) {
+                            // A previous operation failed midway and lost the inner layer
+                            return Err(Error::WrongReaderState(
+                                "[Compression Layer] No inner layer, an error already occurs before"
+                                    .to_string(),
+                            )
+                            .into());
+                        }
                         let old_state =
                             std::mem::replace(&mut self.state, CompressionLayerReaderState::Empty);
                         let mut inner = old_state.into_inner();
@@ -496,16 +508,22 @@ impl<R: Read + Seek> Seek for CompressionLayerReader<'_, R> {
                         }
 
                         let end_pos = self.sizes_info.as_ref().unwrap().max_uncompressed_pos();
-                        let distance_from_end = -pos;
+                        let distance_from_end = pos.checked_neg().unwrap_or(i64::MAX);
                         if distance_from_end >= 0 {
+                            let distance_from_end =
+                                u64::try_from(distance_from_end).map_err(|_| {
+                                    io::Error::new(
+                                        io::ErrorKind::InvalidInput,
+                                        "Invalid distance_from_end value",
+                                    )
+                                })?;
                             self.seek(SeekFrom::Start(
-                                end_pos
-                                    - u64::try_from(distance_from_end).map_err(|_| {
-                                        io::Error::new(
-                                            io::ErrorKind::InvalidInput,
-                                            "Invalid distance_from_end value",
-                                        )
-                                    })?,
+                                end_pos.checked_sub(distance_from_end).ok_or_else(|| {
+                                    io::Error::new(
+                                        io::ErrorKind::InvalidInput,
+                                        "Seek before the start of the stream",
+                                    )
+                                })?,
                             ))
                         } else {
                             Err(io::Error::new(
